@@ -1,4 +1,5 @@
 import importlib
+import importlib.util
 import pathlib
 import sys
 import warnings
@@ -33,24 +34,27 @@ def load_model_from_file(path, register=False):
         If the model cannot be imported
     """
     path = pathlib.Path(path)
+    path_before = list(sys.path)
     try:
         # insert the plugin directory to sys.path so we can import it
         sys.path.insert(-1, str(path.parent))
         sys.dont_write_bytecode = True
-        module = importlib.import_module(path.stem)
-    except ModuleNotFoundError:
-        raise ModelImportError(f"Could not import '{path}'!")
+        # Import from the file location (`importlib.import_module` returns
+        # a previously imported module with the same file name, even if it
+        # is located in a different directory).
+        spec = importlib.util.spec_from_file_location(path.stem, path)
+        module = importlib.util.module_from_spec(spec)
+        spec.loader.exec_module(module)
+    except Exception as exc:
+        raise ModelImportError(f"Could not import '{path}'!") from exc
     finally:
         # undo our path insertion
-        sys.path.remove(str(path.parent))
+        sys.path[:] = path_before
         sys.dont_write_bytecode = False
-
-        mod = NaniteFitModel(module)
-
-        if register:
-            register_model(module)
-
-        return mod
+    mod = NaniteFitModel(module)
+    if register:
+        register_model(module)
+    return mod
 
 
 def register_model(module, *args):
